@@ -7,12 +7,18 @@
 //!   [1; L; tmo_ms; D; dur_ms; hold_ms]                                  forced window at sched_point(10)
 //!   [2; L; tmo_ms; R; drv; njobs; (r panics dur_us)*]                   R proactors sharing one pool
 //!   [3; L; tmo_ms; njobs; (panics dur_us)*]                             Runtime::spawn_blocking
+//!   [4; L; tmo_ms; drv; k; rounds; dur_us]    k jobs finishing at the same instant while the driver
+//!                                             sleeps in poll(4 s): every result must wake it
 //! out:
-//!   [n_ev; (kind a b)*; njobs; (owner panics runner first runs status)*; max_gauge; L; hang; dropped; D]
+//!   [n_ev; (kind a b)*; njobs; (owner panics runner first runs status)*; max_gauge; L; hang; dropped; D;
+//!    lost_wake; timed_out_polls; max_poll_ms; rounds_done]
+//!   lost_wake (mode 4): 1 + job id when a poll ran into its 4 s timeout although a pool thread had sent
+//!   that job's result AND called the waker at least 1.5 s (15 ticks of a 100 ms ticker thread recorded in
+//!   the same log) before the poll gave up — machine load cannot cause that, a lost wake-up does
 //!   events (jobs renumbered in submission order of the log, workers in start order):
 //!     1 CALL d j | 2 RET_OK d j | 3 RET_REJ d j (same closure back) | 4 RET_REJ_WRONG d j
 //!     5 RESERVE_OK d counter | 6 RESERVE_FAIL d counter | 7 WORKER_START t 0
-//!     8 JOB_START t j | 9 JOB_END t j | 10 GUARD_DROP t counter
+//!     8 JOB_START t j | 9 JOB_END t j | 10 GUARD_DROP t counter | 11 WOKEN t j
 //!   status: 1 result delivered to its submitter once, 2 panic surfaced at the submitter,
 //!           0 nothing delivered, 3 anything else (wrong value, wrong receiver, twice)
 use std::{
@@ -36,6 +42,14 @@ const H_CALL: u32 = 201;
 const H_RET: u32 = 202;
 const H_JSTART: u32 = 203;
 const H_JEND: u32 = 204;
+const H_WOKEN: u32 = 205;
+const H_TICK: u32 = 206;
+const H_POLL_END: u32 = 207; // a = 1 when the poll timed out
+const H_POP: u32 = 208; // a = token
+const K_BLOCKING_WOKEN: u32 = 33;
+/// nothing is judged as a hang before this much time has passed (a loaded machine is slow, not stuck)
+const DEADLINE: Duration = Duration::from_secs(40);
+const WATCHDOG: Duration = Duration::from_secs(90);
 const K_BLOCKING_DISPATCH: u32 = 11;
 const K_BLOCKING_START: u32 = 12;
 const K_BLOCKING_END: u32 = 13;
@@ -86,6 +100,7 @@ impl Dispatchable for DirectJob {
         self.gauge.leave();
         verif::emit(H_JEND, self.rec.tok, 0);
         let _ = self.tx.send(self.rec.tok);
+        verif::emit(H_WOKEN, self.rec.tok, 0);
     }
 }
 
@@ -176,6 +191,8 @@ struct CaseOut {
     events: Vec<verif::Event>,
     max_gauge: u64,
     proactor_mode: bool,
+    /// mode 4: lost_wake, timed_out_polls, max_poll_ms, rounds_done
+    extra: [u64; 4],
 }
 
 fn mode0(l: usize, tmo: Duration, d_n: u64, phases: Vec<(u64, Vec<(u64, u64, u64)>)>) -> CaseOut {
@@ -185,7 +202,7 @@ fn mode0(l: usize, tmo: Duration, d_n: u64, phases: Vec<(u64, Vec<(u64, u64, u64
         .collect();
     let jobs = mk_jobs(&specs);
     let gauge = Arc::new(Gauge::default());
-    let deadline = Instant::now() + Duration::from_secs(6);
+    let deadline = Instant::now() + DEADLINE;
     verif::start();
     let pool = AsyncifyPool::new(l, tmo);
     let mut next = 0usize;
@@ -220,14 +237,14 @@ fn mode0(l: usize, tmo: Duration, d_n: u64, phases: Vec<(u64, Vec<(u64, u64, u64
     std::thread::sleep(tmo + Duration::from_millis(3));
     let events = verif::take();
     settle_direct(&jobs);
-    CaseOut { jobs, events, max_gauge: gauge.max.load(SeqCst) as u64, proactor_mode: false }
+    CaseOut { jobs, events, max_gauge: gauge.max.load(SeqCst) as u64, proactor_mode: false, extra: [0; 4] }
 }
 
 fn mode1(l: usize, tmo: Duration, d_n: u64, dur_ms: u64, hold_ms: u64) -> CaseOut {
     let specs: Vec<(u64, bool, u64)> = (0..d_n).map(|d| (d, false, dur_ms * 1000)).collect();
     let jobs = mk_jobs(&specs);
     let gauge = Arc::new(Gauge::default());
-    let deadline = Instant::now() + Duration::from_secs(6);
+    let deadline = Instant::now() + DEADLINE;
     verif::start();
     let pool = AsyncifyPool::new(l, tmo);
     // the window between the limit check and thread::spawn
@@ -254,7 +271,7 @@ fn mode1(l: usize, tmo: Duration, d_n: u64, dur_ms: u64, hold_ms: u64) -> CaseOu
     std::thread::sleep(tmo + Duration::from_millis(3));
     let events = verif::take();
     settle_direct(&jobs);
-    CaseOut { jobs, events, max_gauge: gauge.max.load(SeqCst) as u64, proactor_mode: false }
+    CaseOut { jobs, events, max_gauge: gauge.max.load(SeqCst) as u64, proactor_mode: false, extra: [0; 4] }
 }
 
 type BlockFn = Box<dyn FnOnce() -> BufResult<usize, u64> + Send>;
@@ -277,7 +294,7 @@ fn blocking_body(rec: Arc<JobRec>, gauge: Arc<Gauge>) -> impl FnOnce() -> u64 + 
 fn mode2(l: usize, tmo: Duration, r_n: u64, drv: u64, specs: Vec<(u64, bool, u64)>) -> Result<CaseOut, BadCase> {
     let jobs = mk_jobs(&specs);
     let gauge = Arc::new(Gauge::default());
-    let deadline = Instant::now() + Duration::from_secs(6);
+    let deadline = Instant::now() + DEADLINE;
     let mut builder = ProactorBuilder::new();
     builder
         .driver_type(if drv == 0 { DriverType::IoUring } else { DriverType::Poll })
@@ -333,7 +350,7 @@ fn mode2(l: usize, tmo: Duration, r_n: u64, drv: u64, specs: Vec<(u64, bool, u64
     if failed.load(SeqCst) != 0 {
         return Err(BadCase);
     }
-    Ok(CaseOut { jobs, events, max_gauge: gauge.max.load(SeqCst) as u64, proactor_mode: true })
+    Ok(CaseOut { jobs, events, max_gauge: gauge.max.load(SeqCst) as u64, proactor_mode: true, extra: [0; 4] })
 }
 
 fn mode3(l: usize, tmo: Duration, specs: Vec<(u64, bool, u64)>) -> Result<CaseOut, BadCase> {
@@ -363,7 +380,146 @@ fn mode3(l: usize, tmo: Duration, specs: Vec<(u64, bool, u64)>) -> Result<CaseOu
     drop(rt);
     std::thread::sleep(tmo + Duration::from_millis(3));
     let events = verif::take();
-    Ok(CaseOut { jobs, events, max_gauge: gauge.max.load(SeqCst) as u64, proactor_mode: true })
+    Ok(CaseOut { jobs, events, max_gauge: gauge.max.load(SeqCst) as u64, proactor_mode: true, extra: [0; 4] })
+}
+
+/// k blocking jobs leave a spin barrier together while the driver thread sleeps in poll
+fn mode4(l: usize, tmo: Duration, drv: u64, k: u64, rounds: u64, dur_us: u64) -> Result<CaseOut, BadCase> {
+    const POLL_TIMEOUT: Duration = Duration::from_secs(4);
+    const LOST_TICKS: u64 = 15;
+    let specs: Vec<(u64, bool, u64)> = (0..k * rounds).map(|_| (0, false, dur_us)).collect();
+    let jobs = mk_jobs(&specs);
+    let gauge = Arc::new(Gauge::default());
+    let mut builder = ProactorBuilder::new();
+    builder
+        .driver_type(if drv == 0 { DriverType::IoUring } else { DriverType::Poll })
+        .thread_pool_limit(l)
+        .thread_pool_recv_timeout(tmo);
+    let mut p = builder.build().map_err(|_| BadCase)?;
+    verif::start();
+    let stop = Arc::new(AtomicU64::new(0));
+    let ticker = {
+        let stop = stop.clone();
+        std::thread::spawn(move || {
+            while stop.load(SeqCst) == 0 {
+                std::thread::sleep(Duration::from_millis(100));
+                verif::emit(H_TICK, 0, 0);
+            }
+        })
+    };
+    let t_case = Instant::now();
+    let mut timed_out_polls = 0u64;
+    let mut max_poll_ms = 0u64;
+    let mut rounds_done = 0u64;
+    let mut pushed_n = 0usize;
+    'rounds: for r in 0..rounds {
+        if t_case.elapsed() > Duration::from_secs(25) {
+            break; // a slow machine: fewer rounds, not a finding
+        }
+        let arrived = Arc::new(AtomicUsize::new(0));
+        let mut keys: Vec<(Arc<JobRec>, Option<Key<BlockOp>>)> = vec![];
+        for i in 0..k {
+            let rec = jobs[(r * k + i) as usize].clone();
+            let (gauge, arrived, rec2) = (gauge.clone(), arrived.clone(), rec.clone());
+            let f: BlockFn = Box::new(move || {
+                verif::emit(H_JSTART, rec2.tok, 0);
+                rec2.runs.fetch_add(1, SeqCst);
+                gauge.enter();
+                arrived.fetch_add(1, SeqCst);
+                let t0 = Instant::now();
+                // leave together (give up after a long while so that nothing can hang here)
+                while arrived.load(SeqCst) < k as usize && t0.elapsed() < Duration::from_secs(20) {
+                    std::hint::spin_loop();
+                }
+                std::thread::sleep(rec2.dur);
+                gauge.leave();
+                let v = rec2.tok + 7;
+                BufResult(Ok(v as usize), v)
+            });
+            pushed_n += 1;
+            match p.push(Asyncify::new(f)) {
+                PushEntry::Pending(key) => keys.push((rec, Some(key))),
+                PushEntry::Ready(_) => rec.status.store(3, SeqCst),
+            }
+        }
+        let t_round = Instant::now();
+        while keys.iter().any(|(_, key)| key.is_some()) {
+            if t_round.elapsed() > DEADLINE {
+                break 'rounds;
+            }
+            let t0 = Instant::now();
+            let res = p.poll(Some(POLL_TIMEOUT));
+            let el = t0.elapsed();
+            max_poll_ms = max_poll_ms.max(el.as_millis() as u64);
+            let timed_out = matches!(&res, Err(e) if e.kind() == std::io::ErrorKind::TimedOut)
+                && el >= POLL_TIMEOUT.mul_f32(0.9);
+            timed_out_polls += timed_out as u64;
+            verif::emit(H_POLL_END, timed_out as u64, 0);
+            for (rec, slot) in keys.iter_mut() {
+                let Some(key) = slot.take() else { continue };
+                match catch_unwind(AssertUnwindSafe(|| p.pop(key))) {
+                    Ok(PushEntry::Pending(key)) => *slot = Some(key),
+                    Ok(PushEntry::Ready(BufResult(res, _))) => {
+                        verif::emit(H_POP, rec.tok, 0);
+                        let ok = matches!(res, Ok(v) if v as u64 == rec.tok + 7);
+                        rec.status.store(if ok { 1 } else { 3 }, SeqCst);
+                    }
+                    Err(_) => rec.status.store(3, SeqCst),
+                }
+            }
+            if timed_out {
+                // one lost wake-up is enough; do not sit through 4 s for every further one
+                rounds_done = r;
+                break 'rounds;
+            }
+        }
+        rounds_done = r + 1;
+    }
+    stop.store(1, SeqCst);
+    let _ = ticker.join();
+    drop(p);
+    std::thread::sleep(tmo.min(Duration::from_millis(20)) + Duration::from_millis(3));
+    let mut events = verif::take();
+    // judge the timed-out polls against the ticker
+    let mut lost = 0u64;
+    let mut ticks = 0u64;
+    let mut woken_at: HashMap<u64, u64> = HashMap::new(); // token -> tick count when WOKEN was logged
+    let mut cur_tok: HashMap<u64, u64> = HashMap::new(); // worker thread -> token it runs
+    for e in &events {
+        match e.kind {
+            H_TICK => ticks += 1,
+            H_JSTART => {
+                cur_tok.insert(e.thread, e.a);
+            }
+            K_BLOCKING_WOKEN => {
+                if let Some(tok) = cur_tok.get(&e.thread) {
+                    woken_at.insert(*tok, ticks);
+                }
+            }
+            H_POP => {
+                woken_at.remove(&e.a);
+            }
+            H_POLL_END if e.a == 1 => {
+                if let Some((tok, _)) = woken_at.iter().filter(|(_, t)| ticks >= **t + LOST_TICKS).min() {
+                    if lost == 0 {
+                        lost = 1 + tok;
+                    }
+                }
+            }
+            _ => {}
+        }
+    }
+    events.retain(|e| !matches!(e.kind, H_TICK | H_POLL_END | H_POP));
+    // only the jobs that were pushed are part of the case
+    let mut jobs = jobs;
+    jobs.truncate(pushed_n);
+    Ok(CaseOut {
+        jobs,
+        events,
+        max_gauge: gauge.max.load(SeqCst) as u64,
+        proactor_mode: true,
+        extra: [lost, timed_out_polls, max_poll_ms, rounds_done],
+    })
 }
 
 /// raw log -> model events (see the header), renumbering jobs and threads
@@ -402,6 +558,7 @@ fn model_events(c: &CaseOut) -> (Vec<[u64; 3]>, Vec<usize>, u64) {
     let mut th_d: HashMap<u64, u64> = HashMap::new();
     let mut th_w: HashMap<u64, u64> = HashMap::new();
     let mut cur: HashMap<u64, u64> = HashMap::new();
+    let mut sent: HashMap<u64, u64> = HashMap::new();
     let mut pending_ret: HashMap<u64, u64> = HashMap::new();
     const NOBODY: u64 = 99;
     for (i, e) in ev.iter().enumerate() {
@@ -460,7 +617,17 @@ fn model_events(c: &CaseOut) -> (Vec<[u64; 3]>, Vec<usize>, u64) {
             K_BLOCKING_END if c.proactor_mode => {
                 let Some(j) = cur.remove(&e.thread) else { continue };
                 let t = th_w.get(&e.thread).copied().unwrap_or(NOBODY);
+                sent.insert(e.thread, j);
                 out.push([9, t, j]);
+            }
+            K_BLOCKING_WOKEN if c.proactor_mode => {
+                let Some(j) = sent.remove(&e.thread) else { continue };
+                let t = th_w.get(&e.thread).copied().unwrap_or(NOBODY);
+                out.push([11, t, j]);
+            }
+            H_WOKEN if !c.proactor_mode => {
+                let t = th_w.get(&e.thread).copied().unwrap_or(NOBODY);
+                out.push([11, t, jid.get(&e.a).copied().unwrap_or(NOBODY)]);
             }
             K_WORKER_EXIT => {
                 // a straggler of an earlier case's pool is not part of this history
@@ -556,6 +723,7 @@ fn encode(c: &CaseOut, l: u64, d_n: u64, hang: u64) -> Vec<u64> {
         ]);
     }
     out.extend_from_slice(&[c.max_gauge, l, hang, dropped, d_n]);
+    out.extend_from_slice(&c.extra);
     out
 }
 
@@ -645,6 +813,16 @@ fn run(case: &[u64]) -> Result<Vec<u64>, BadCase> {
             }
             (1, Box::new(move || mode3(l as usize, tmo, specs)))
         }
+        4 => {
+            let drv = c.take()?;
+            let k = c.take()?;
+            let rounds = c.take()?;
+            let dur = us(c.take()?)?;
+            if drv > 1 || !(1..=4).contains(&k) || k > l || rounds == 0 || rounds > 1000 || dur > 20_000 {
+                return Err(BadCase);
+            }
+            (1, Box::new(move || mode4(l as usize, tmo, drv, k, rounds, dur)))
+        }
         _ => return Err(BadCase),
     };
     if c.i != case.len() {
@@ -657,7 +835,7 @@ fn run(case: &[u64]) -> Result<Vec<u64>, BadCase> {
         let _ = tx.send(job());
     });
     // watchdog: nothing may hang
-    match rx.recv_timeout(Duration::from_secs(12)) {
+    match rx.recv_timeout(WATCHDOG) {
         Ok(Ok(out)) => {
             let hang = out.jobs.iter().any(|j| j.status.load(SeqCst) == 0) as u64;
             Ok(encode(&out, l, d_n, hang))
@@ -666,7 +844,7 @@ fn run(case: &[u64]) -> Result<Vec<u64>, BadCase> {
         Err(_) => {
             verif::block(10, false);
             let _ = verif::take();
-            Ok(vec![0, 0, 0, l, 1, 0, d_n])
+            Ok(vec![0, 0, 0, l, 1, 0, d_n, 0, 0, 0, 0])
         }
     }
 }
